@@ -376,29 +376,34 @@ func checkPremises(c *Ctx) {
 		}
 		R.Check(okc && req, "R09.1", "packets.checkLayers#premise[ip-layers-handled]", cl.Pos(), core.FuncName(cl), fmt.Sprintf("checkLayers admits %v, all handled by GetIPPair %v", admitted, keysOf(handled)), fmt.Sprintf("checkLayers admits %v (required=%v) but GetIPPair handles %v: the GetIPPair failure is no longer infeasible", admitted, req, keysOf(handled)))
 	}
-	// (4) every matcher runs only after ReadAndParse returned nil
+	// (4) every matcher runs only after ReadAndParse returned nil: on every inlined path of ReceiveProbe (helpers of the driver's
+	// package opened) that consults the parser, the capture read's error was tested nil before
 	for _, d := range Drivers(c.P) {
 		f := d.ReceiveProbe
-		for _, b := range f.Blocks {
-			for _, in := range b.Instrs {
-				call, ok := in.(*ssa.Call)
-				if !ok || call.Common().StaticCallee() == nil || !strings.HasSuffix(core.FuncName(call.Common().StaticCallee()), ".handleProbeLayers") {
-					continue
+		ips := InlinedPaths(c.P, f, inlineOpts{pkg: core.FuncPkg(f), stop: hasLoop, maxDepth: 4})
+		okAll, n := true, 0
+		for _, ip := range ips {
+			consults := false
+			parsed := false
+			for _, a := range ip.Atoms {
+				nn := a.Norm()
+				if nn.Cond.Has(func(x *core.Term) bool { return x.Op == "call" && strings.Contains(x.Name, "(*packets.FrameParser).") }) {
+					consults = true
 				}
-				okAll := true
-				paths, _ := core.EnumPaths(f, b, 500)
-				for _, pa := range paths {
-					env := core.NewEnv(c.P, pa)
-					f1, s1 := atomTrue(env.Atoms(), func(t *core.Term) bool {
-						return t.Op == "binop" && t.Name == "==" && isCallToSuffix(t.Args[0], "packets.ReadAndParse") && t.Args[1].IsConst("nil")
-					})
-					if !(f1 && s1) {
-						okAll = false
+				if nn.Sign && nn.Cond.Op == "binop" && nn.Cond.Name == "==" && nn.Cond.Args[1].IsConst("nil") {
+					if cs, ok := nn.Cond.Args[0].Val.(*ssa.Call); ok && nn.Cond.Args[0].Op == "call" && isCaptureRead(cs.Common()) {
+						parsed = true
 					}
 				}
-				R.Check(okAll, "R09.1", core.FuncName(f)+"#premise[match-after-parse]", call.Pos(), core.FuncName(f), "the matcher runs only after ReadAndParse returned nil", "the matcher can run without a successful ReadAndParse")
+			}
+			if consults {
+				n++
+				if !parsed {
+					okAll = false
+				}
 			}
 		}
+		R.Check(okAll && n > 0, "R09.1", core.FuncName(f)+"#premise[match-after-parse]", f.Pos(), core.FuncName(f), fmt.Sprintf("the matcher consults the parser only after the capture read returned nil (%d paths)", n), "the matcher can run without a successful ReadAndParse")
 	}
 }
 
@@ -1192,6 +1197,116 @@ func leLenFact(cond ssa.Value, truth bool, x ssa.Value, S ssa.Value) (int64, boo
 	return lc, true
 }
 
+// constLenFact: does (cond == truth) establish K <= len(S) for a constant K? Returns K.
+func constLenFact(cond ssa.Value, truth bool, S ssa.Value) (int64, bool) {
+	bo, ok := cond.(*ssa.BinOp)
+	if !ok {
+		return 0, false
+	}
+	isLen := func(v ssa.Value) bool {
+		call, ok := stripWiden(v).(*ssa.Call)
+		if !ok {
+			return false
+		}
+		bi, ok := call.Common().Value.(*ssa.Builtin)
+		return ok && bi.Name() == "len" && sameSlice(call.Common().Args[0], S)
+	}
+	cst := func(v ssa.Value) (int64, bool) {
+		if k, ok := v.(*ssa.Const); ok && k.Value != nil {
+			return k.Int64(), true
+		}
+		return 0, false
+	}
+	op := bo.Op
+	if !truth {
+		switch op {
+		case token.LSS:
+			op = token.GEQ
+		case token.LEQ:
+			op = token.GTR
+		case token.GEQ:
+			op = token.LSS
+		case token.GTR:
+			op = token.LEQ
+		case token.EQL:
+			op = token.NEQ
+		case token.NEQ:
+			op = token.EQL
+		}
+	}
+	if isLen(bo.X) {
+		if k, ok := cst(bo.Y); ok {
+			switch op {
+			case token.GEQ:
+				return k, true
+			case token.GTR:
+				return k + 1, true
+			case token.EQL:
+				return k, true
+			}
+		}
+	}
+	if isLen(bo.Y) {
+		if k, ok := cst(bo.X); ok {
+			switch op {
+			case token.LEQ:
+				return k, true
+			case token.LSS:
+				return k + 1, true
+			case token.EQL:
+				return k, true
+			}
+		}
+	}
+	return 0, false
+}
+
+// minLenAt: the largest constant K for which len(S) >= K is established at instruction `at` – by a dominating comparison, or,
+// when S is a parameter, at every call site of the function inside the module.
+func minLenAt(c *Ctx, S ssa.Value, at ssa.Instruction, depth int) int64 {
+	var best int64
+	conds, truth := domFacts(at.Block())
+	for i, cd := range conds {
+		if k, ok := constLenFact(cd, truth[i], S); ok && k > best {
+			best = k
+		}
+	}
+	if pa, ok := S.(*ssa.Parameter); ok && depth < 3 {
+		g := pa.Parent()
+		idx := -1
+		for k, q := range g.Params {
+			if q == pa {
+				idx = k
+			}
+		}
+		n := c.P.CallGraph().Nodes[g]
+		if n == nil || idx < 0 {
+			return best
+		}
+		sites := 0
+		var least int64 = -1
+		for _, in := range n.In {
+			if in.Caller.Func == nil || !core.InModule(in.Caller.Func) {
+				continue
+			}
+			cc := in.Site.Common()
+			off := len(g.Params) - len(cc.Args)
+			if cc.IsInvoke() || off < 0 || idx-off < 0 || idx-off >= len(cc.Args) {
+				return best
+			}
+			sites++
+			k := minLenAt(c, cc.Args[idx-off], in.Site, depth+1)
+			if least < 0 || k < least {
+				least = k
+			}
+		}
+		if sites > 0 && least > best {
+			best = least
+		}
+	}
+	return best
+}
+
 func proveUpperBound(c *Ctx, f *ssa.Function, lbr token.Pos) (bool, string) {
 	if f == nil || lbr == token.NoPos {
 		return false, ""
@@ -1205,6 +1320,10 @@ func proveUpperBound(c *Ctx, f *ssa.Function, lbr token.Pos) (bool, string) {
 			switch x := in.(type) {
 			case *ssa.IndexAddr:
 				idx := stripWiden(x.Index)
+				// (0) a constant index below an established minimum length
+				if k, ok := idx.(*ssa.Const); ok && k.Value != nil && k.Int64() >= 0 && k.Int64() < minLenAt(c, x.X, in, 0) {
+					return true, "constant index below the minimum length established by a dominating comparison (here or at every call site)"
+				}
 				// (1) idx = slices.IndexFunc(S, ...) on the same slice, behind "found"
 				if call, ok := idx.(*ssa.Call); ok && strings.HasPrefix(core.CalleeName(call.Common()), "slices.Index") && len(call.Common().Args) > 0 && sameSlice(call.Common().Args[0], x.X) {
 					for i, cd := range conds {
@@ -1238,6 +1357,16 @@ func proveUpperBound(c *Ctx, f *ssa.Function, lbr token.Pos) (bool, string) {
 					}
 				}
 			case *ssa.Slice:
+				// (0) constant bounds below an established minimum length
+				{
+					top := x.High
+					if top == nil {
+						top = x.Low
+					}
+					if k, ok := top.(*ssa.Const); ok && top != nil && k.Value != nil && k.Int64() >= 0 && k.Int64() <= minLenAt(c, x.X, in, 0) {
+						return true, "constant slice bound within the minimum length established by a dominating comparison (here or at every call site)"
+					}
+				}
 				if x.High == nil {
 					// s[lo:]: lo <= len(s)
 					if x.Low == nil {
